@@ -152,14 +152,15 @@ func mkMixed(id, method, tok string) member {
 type srvConfig struct {
 	// basectx (racing scenarios only): ServerOptions.NewContext hands out a context derived from one base
 	// context that the scenario may end, with a cause of its own, at any time
-	basectx  bool
-	rpclog   bool // ServerOptions.RPCLog is set (a logger that only checks what it is given)
-	closeErr bool // the channel's Close returns an error
-	K        int
-	push     bool
-	builtin  bool
-	unblock  bool
-	methods  []string
+	basectx   bool
+	deadlines bool // ServerOptions.NewContext gives every request context a deadline of 5 s (scripted, monitors only)
+	rpclog    bool // ServerOptions.RPCLog is set (a logger that only checks what it is given)
+	closeErr  bool // the channel's Close returns an error
+	K         int
+	push      bool
+	builtin   bool
+	unblock   bool
+	methods   []string
 }
 
 type mctx struct {
@@ -360,6 +361,13 @@ func newSrvRun(cfg srvConfig, out *bufio.Writer) *srvRun {
 	opts := &jrpc2.ServerOptions{Concurrency: cfg.K, AllowPush: cfg.push, DisableBuiltin: !cfg.builtin}
 	if cfg.rpclog {
 		opts.RPCLog = rpcLogger{r}
+	}
+	if cfg.deadlines {
+		opts.NewContext = func() context.Context {
+			ctx, cancel := context.WithTimeout(context.Background(), 5*time.Second)
+			_ = cancel // released when the deadline passes
+			return ctx
+		}
 	}
 	if cfg.basectx {
 		r.base, r.baseCancel = context.WithCancelCause(context.Background())
